@@ -345,7 +345,8 @@ def run_job(job, io):
                     outcome = 'na'
             elif kind == 'mutate_handout':
                 e = pick()
-                which = tape.choice(('paths', 'accessors', 'entries', 'children', 'leaves', 'flatten_leaves', 'entries_elems', 'paths_elems', 'unflatten_result', 'unflatten_result'), 'which')
+                which = tape.choice(('paths', 'accessors', 'entries', 'children', 'leaves', 'flatten_leaves', 'entries_elems', 'paths_elems', 'unflatten_result', 'unflatten_result',
+                                     'walk_meta', 'getstate', 'setstate_input'), 'which')
                 detail = which
                 site = 'mutate_handout:' + which
                 io.progress({'site': site, 'tape': tape.values})
@@ -368,6 +369,47 @@ def run_job(job, io):
                         if isinstance(cont, U.Node) and isinstance(cont.aux, list):
                             cont.aux.append('junk')
                     back = cont = None
+                elif which == 'walk_meta':
+                    # walk() passes each node's metadata to f_node; for dict-like nodes that is a list the ENGINE made
+                    handed = []
+                    sp.walk([U.Leaf(41000 + i) for i in range(sp.num_leaves)], lambda tp, meta, ch: handed.append((tp, meta)), None)
+                    for tp, meta in handed:
+                        if tp in (dict, OrderedDict, defaultdict):
+                            scramble(meta)
+                    handed = meta = None
+                elif which == 'getstate':
+                    st = sp.__getstate__()
+                    for n in st[0]:
+                        if n[0] in (5, 7, 8):  # Dict, OrderedDict, DefaultDict: key lists made by the engine
+                            scramble(n[2])
+                            if len(n) > 7:
+                                scramble(n[7])
+                    st = n = None
+                elif which == 'setstate_input':
+                    # a state the CALLER owns: the treespec built from it must not change when the caller reuses its lists
+                    st = sp.__getstate__()
+                    mine = (tuple(tuple(fresh_lists(f) for f in n) for n in st[0]), st[1], st[2])
+                    sp2 = optree.PyTreeSpec.__new__(optree.PyTreeSpec)
+                    try:
+                        sp2.__setstate__(mine)
+                    except RuntimeError:
+                        # a custom type the treespec mentions is no longer registered (a registry step unregistered it): loading refuses
+                        probes['setstate-refused-unregistered'] += 1
+                        sp2 = None
+                    if sp2 is not None:
+                        before = (repr(sp2), sp2.entries(), sp2.paths(), sp2 == sp)
+                        for n in mine[0]:
+                            if n[0] in (5, 7, 8):
+                                scramble(n[2])
+                                if len(n) > 7:
+                                    scramble(n[7])
+                        try:
+                            after = (repr(sp2), sp2.entries(), sp2.paths(), sp2 == sp)
+                        except Exception as ex2:  # noqa: BLE001
+                            after = 'raised %s: %s' % (type(ex2).__name__, str(ex2)[:120])
+                        if after != before:
+                            viol('spec-changed', site, 'a treespec built by __setstate__ changed when the caller mutated the state lists it had passed in: %r -> %r' % (before[:2], after[:2] if isinstance(after, tuple) else after))
+                        st = mine = sp2 = n = before = after = None
                 elif which == 'entries_elems':
                     # entries may be mutable objects only if the user made them so; lists returned per node must be copies
                     for i in range(sp.num_children):
@@ -604,6 +646,25 @@ class Box:
 
     def __call__(self):
         return 0
+
+
+def scramble(x):
+    """Mutate an engine-made key list (or the list inside a defaultdict's (factory, keys) tuple) the way a careless caller might."""
+    if isinstance(x, list):
+        x.append('junk-key')
+        x.reverse()
+    elif isinstance(x, tuple):
+        for y in x:
+            if isinstance(y, list):
+                scramble(y)
+
+
+def fresh_lists(x):
+    if isinstance(x, list):
+        return list(x)
+    if isinstance(x, tuple) and any(isinstance(y, list) for y in x):
+        return tuple(list(y) if isinstance(y, list) else y for y in x)
+    return x
 
 
 CYCLE_USE_FNS = {
